@@ -1,5 +1,4 @@
 use crate::errors::CompressionError;
-use nintendo_lz::decompress_arr;
 use std::cmp::min;
 use std::num::Wrapping;
 
@@ -36,6 +35,76 @@ pub(crate) fn get_occurrence_length(
         }
     }
     (max_length as i32, disp)
+}
+
+/// Decodes an LZ10/LZ11 stream.
+///
+/// Behaves like `nintendo_lz::decompress_arr` on every stream that function decodes, but a
+/// back-reference that reaches before the start of the output is an error instead of a panic.
+pub(crate) fn decompress_lz(bytes: &[u8]) -> Option<Vec<u8>> {
+    let mut position = 0;
+    let mut next = || -> Option<usize> {
+        let value = *bytes.get(position)?;
+        position += 1;
+        Some(value as usize)
+    };
+    let mut read_u32 = || -> Option<usize> {
+        Some(next()? | (next()? << 8) | (next()? << 16) | (next()? << 24))
+    };
+
+    let header = read_u32()?;
+    let extended = match header & 0xFF {
+        0x10 => false,
+        0x11 => true,
+        _ => return None,
+    };
+    let mut length = header >> 8;
+    if length == 0 && extended {
+        length = read_u32()?;
+    }
+
+    let mut out: Vec<u8> = Vec::with_capacity(min(length, 0x100_0000));
+    while out.len() < length {
+        let flags = next()?;
+        for bit_no in (0..8).rev() {
+            if out.len() >= length {
+                break;
+            }
+            if ((flags >> bit_no) & 1) == 0 {
+                out.push(next()? as u8);
+                continue;
+            }
+            let byte0 = next()?;
+            let byte1 = next()?;
+            let (count, disp) = if !extended {
+                ((byte0 >> 4) + 3, ((byte0 & 15) << 8) + byte1)
+            } else if (byte0 >> 4) > 1 {
+                ((byte0 >> 4) + 1, ((byte0 & 15) << 8) + byte1)
+            } else if (byte0 >> 4) == 0 {
+                let byte2 = next()?;
+                (
+                    ((byte0 & 15) << 4) + (byte1 >> 4) + 0x11,
+                    ((byte1 & 15) << 8) + byte2,
+                )
+            } else {
+                let byte2 = next()?;
+                let byte3 = next()?;
+                (
+                    ((byte0 & 15) << 12) + (byte1 << 4) + (byte2 >> 4) + 0x111,
+                    ((byte2 & 15) << 8) + byte3,
+                )
+            };
+            if disp >= out.len() {
+                return None;
+            }
+            let start = out.len() - disp - 1;
+            for i in 0..count {
+                let value = out[start + i];
+                out.push(value);
+            }
+        }
+    }
+    Some(out)
 }
 
 // Based on https://github.com/VelouriasMoon/FE3D/blob/main/FE3D/LZ13.cs
@@ -182,9 +251,9 @@ impl LZ13CompressionFormat {
         } else {
             let truncated_input = if bytes[0] == 0x13 { &bytes[4..] } else { bytes };
 
-            match decompress_arr(truncated_input) {
-                Ok(decompressed_data) => Ok(decompressed_data),
-                Err(_) => Err(CompressionError::InvalidInput("LZ13".to_string())),
+            match decompress_lz(truncated_input) {
+                Some(decompressed_data) => Ok(decompressed_data),
+                None => Err(CompressionError::InvalidInput("LZ13".to_string())),
             }
         }
     }
